@@ -11,6 +11,7 @@ R3 registered per-target state (ASSUME registers, ON/OFF flags, CPU arguments)
 from core import *
 from .common import *
 from . import reset
+from . import effects as E
 
 
 def run(chk, facts, info):
@@ -113,6 +114,52 @@ def run(chk, facts, info):
                (', '.join(sorted(lw)) or 'uninitialised'))
     if k6 < 2:
         raise AnalysisBroken('ParseCPUArgs: split operations not found')
+    chk.rule('C18-R7', 'code generators that keep "what the previous statement did" (pipeline hazards, pending prefixes, '
+             'delay slots) copy a carrier variable into a working variable at the top of their line decoder (X = N_X). The '
+             'carrier - the variable the decode functions write for the *next* line - is what must be reset by the '
+             'module\'s init-pass procedure or switch function; resetting only the working copy has no effect', min_instances=5)
+    S = P.slots()
+    n7 = 0
+
+    def root(e):
+        e = strip(e)
+        while e[0] == 'i':
+            e = strip(e[1])
+        return e
+    for u in P.units:
+        if not is_generator_unit(u.name):
+            continue
+        mk = {f for f in S.get('g:MakeCode', ()) if f.unit is u}
+        if not mk:
+            continue
+        resetf = None
+        for m in sorted(mk, key=lambda x: x.name):
+            for b, i, ln, nd in m.nodes():
+                if not (is_assign(nd) and nd[1] == '='):
+                    continue
+                v, w = root(nd[2]), root(nd[3])
+                if not (v[0] == 'gs' and w[0] == 'gs' and v != w):
+                    continue
+                kw = u.name + ':' + w[1]
+                writers = [f for f in u.funcs.values() if f.file == u.name and
+                           any(k == kw and how in ('=', 'op', 'elem') for k, how, *_r in P.writes(f))]
+                if resetf is None:
+                    resetf = reset.unit_reset_funcs(P, u)
+                    killed = set()
+                    for f in resetf:
+                        killed |= E.kill(P, f)
+                if not [f for f in writers if f not in resetf]:
+                    continue          # not written while lines are decoded: configuration, not a carrier
+                n7 += 1
+                ok = kw in killed
+                chk.ob('C18-R7', '%s:%s:%s<-%s' % (u.name, m.name, v[1], w[1]), ok, m.loc(ln),
+                       'carrier %s reset per pass / CPU switch' % w[1] if ok else
+                       '%s() starts every line with %s = %s, and %s is written by %s for the next line, but no init-pass procedure '
+                       'or switch function of %s assigns %s: the first statement of the next file (or pass) is decoded with the '
+                       'state the previous source ended in' % (m.name, v[1], w[1], w[1],
+                                                                ', '.join(sorted(f.name for f in writers if f not in resetf))[:60], u.name, w[1]))
+    if n7 < 5:
+        raise AnalysisBroken('only %d carrier copies found in the line decoders' % n7)
     chk.note('Decided: reset completeness of core state, target interface exhaustiveness of all CPU switch functions, '
              'reset of registered per-target state. Not decided: equality of outputs for concrete file pairs; private '
              'statics of code generators beyond the registered ones.')
